@@ -181,7 +181,13 @@ def _task15_ctx(arg):
             nums = nums[:30] + nums[-30:]
         for variant in VARIANTS:
             expr = ctor(variant, lo, hi)
-            p = _mk(expr)
+            try:
+                p = _mk(expr)
+                _mk(ctor(variant, lo, hi, True))
+            except Exception as e:  # noqa: BLE001
+                viol.append(V(f'C15|{expr}|raised:{type(e).__name__}', f"{expr} (or its extensible form) raised {type(e).__name__}",
+                              'p = ' + expr + '\nq = ' + ctor(variant, lo, hi, True)))
+                continue
             for num in nums:
                 for sg in ('', '+', '-'):
                     w = expected_clean(variant, sg, num, lo, hi)
@@ -226,7 +232,12 @@ def _task15_ctx(arg):
             for prefix in ('a', 'x-', ' ', '+', 'a.'):
                 if variant == 'UnsignedInteger' and prefix[-1] in '+-':
                     continue
-                q = _mk(f"Pregex({prefix!r}) + {eexpr}")
+                try:
+                    q = _mk(f"Pregex({prefix!r}) + {eexpr}")
+                except Exception as e:  # noqa: BLE001
+                    viol.append(V(f'C15|{eexpr}|prefix|{prefix!r}|raised:{type(e).__name__}',
+                                  f"Pregex({prefix!r}) + {eexpr} raised {type(e).__name__}", f"q = Pregex({prefix!r}) + {eexpr}"))
+                    continue
                 for num in nums:
                     cnt['extensible_prefix_checks'] += 1
                     t = prefix + sg + num
@@ -400,7 +411,13 @@ def _task16(arg):
                                           f"p = {expr}\nassert p.is_exact_match({cand!r}) == {exp_em}"))
             # extensible with a prefix
             sg = {'Decimal': '', 'DecimalSigned': '+', 'PositiveDecimal': '+', 'NegativeDecimal': '-', 'UnsignedDecimal': ''}[variant]
-            q = _mk(f"Pregex('a') + {dctor(variant, lo, hi, mn, mx, True)}")
+            try:
+                q = _mk(f"Pregex('a') + {dctor(variant, lo, hi, mn, mx, True)}")
+            except Exception as e:  # noqa: BLE001
+                viol.append(V(f'C16|{expr}|extensible|raised:{type(e).__name__}',
+                              f"Pregex('a') + {dctor(variant, lo, hi, mn, mx, True)} raised {type(e).__name__}",
+                              f"q = Pregex('a') + {dctor(variant, lo, hi, mn, mx, True)}"))
+                continue
             for ip in ips[1:]:
                 for frac in fracs:
                     t = 'a' + sg + ip + '.' + frac
